@@ -295,6 +295,18 @@ def mfpt_job(n, sinks=None, zero_pattern=None, given_pops=True, layout='C', cont
                                signature='exception:' + type(e).__name__)
                     return out
             bad = run_oracle(oracle(tolm(Tc), Tol(lc), res))
+            if sinks is None:
+                # the clause itself, on the real code: every column of the table equals the single-sink computation (the first-step
+                # residual alone is ill-conditioned for rarely visited targets: times of 1e8 lag times hide an error of a few)
+                with core.concrete_mode():
+                    for j in range(n):
+                        try:
+                            col = np.asarray(tc.mfpts(Ac, sinks=[j], populations=pc, lagtime=lc)).reshape(-1)
+                        except Exception:
+                            continue
+                        if not np.allclose(r[:, j], col, rtol=1e-6, atol=1e-9 * max(1.0, abs(lc))):
+                            bad.append('all-pairs column %d = single sink {%d}: one-lag-plus-weighted-average-elsewhere' % (j, j))
+                bad = sorted(set(bad))
             if dn(Ac).tolist() != Tc:
                 bad.append('transition-matrix-modified')
             out['violated'] = bad
